@@ -74,6 +74,7 @@ func init() {
 		if c.isTrue() {
 			return nil
 		}
+		e.res.SymAsserts++
 		inPrefix := e.pos < len(e.prefix)
 		if c.isFalse() {
 			if !inPrefix {
